@@ -229,6 +229,12 @@ func runC01(c *Ctx) *Replay {
 				sc.Sched = drawSchedule(c.R, len(data), spans)
 				sc.Reader = readerKinds[c.R.Intn(len(readerKinds))]
 			}
+			if c.R.Chance(1, 4) {
+				// the process has a past: decodes of this type that FAILED (empty and cut
+				// streams, cut buffers) came before this one
+				sc.Again = true
+				c.Count("after_failed_decodes", 1)
+			}
 			viol := execRoundTrip(c.N, &sc)
 			c.Count("evaluations", 1)
 			if sc.Extra["skipped"] != "" {
@@ -271,10 +277,10 @@ func execReadOnlyAPI(n *Node, sc *Scenario) *Violation {
 	}
 	rv := reflect.ValueOf(rec).Elem()
 	fn := reflect.ValueOf(t.NewFunc)
-	if fn.Kind() != reflect.Func || fn.Type().NumIn() != rv.NumField() {
+	if fn.Kind() != reflect.Func || fn.Type().NumIn() != len(pk.Def.Fields) || rv.NumField() < len(pk.Def.Fields) {
 		return mismatch("readonly-api|constructor-arity", fmt.Sprintf("New%s takes %d arguments, the struct has %d fields", pk.Type, fn.Type().NumIn(), rv.NumField()), nil)
 	}
-	args := make([]reflect.Value, rv.NumField())
+	args := make([]reflect.Value, len(pk.Def.Fields))
 	for i := range args {
 		args[i] = bridge.Field(rv, i)
 	}
@@ -397,6 +403,15 @@ func execRoundTripInner(n *Node, sc *Scenario) *Violation {
 		}
 		data = eo.Bytes
 	}
+	if sc.Again {
+		// earlier calls of this process that failed: what they return is their business
+		// (C07, C08), what they leave behind must not reach the decode that follows
+		for _, pre := range [][]byte{nil, data[:len(data)/2], data[:len(data)*7/8]} {
+			for _, dec := range []string{"decode", "unmarshal", "make"} {
+				n.decode(rb, sc.Type, dec, pre, &simnet.Schedule{Name: "all"}, nil, sc.Reader, len(data))
+			}
+		}
+	}
 	do := n.decode(rb, sc.Type, sc.Decoder, data, sc.Sched, nil, sc.Reader, len(data))
 	if do.NoSuch {
 		note(sc, "skipped", "decoder not generated")
@@ -473,8 +488,26 @@ func runC02(c *Ctx) *Replay {
 			sc.Dirty.Pad = c.R.Range(1, 33)
 		}
 		sc.Writer = writerKinds[c.R.Intn(len(writerKinds))]
+		switch i {
+		case 1, 4:
+			sc.Extra = map[string]string{"origin": "decoded"}
+			sc.Decoder = []string{"unmarshal", "unmarshal", "decode", "makefrombytes", "make"}[c.R.Intn(5)]
+			if obs := c.N.OldOf[pk.B.Prog.ID]; i == 4 && len(obs) > 0 {
+				if ob := obs[c.R.Intn(len(obs))]; ob.Types[pk.Type] != nil {
+					sc.OldPeer, sc.PeerMask = true, ob.Mask
+				}
+			}
+		case 2:
+			if pk.Def.ReadOnly {
+				sc.Extra = map[string]string{"origin": "constructed"}
+			}
+		}
 		viol := execEncoders(c.N, &sc)
 		c.Count("evaluations", 1)
+		c.Count("origin:"+sc.Extra["origin"]+sc.Extra["grown"], 1)
+		if sc.Extra["skipped"] != "" {
+			c.Count("origin_skipped", 1)
+		}
 		c.Count("fill:"+sc.Dirty.Fill, 1)
 		if sc.Dirty.Pad > 0 {
 			c.Count("padded", 1)
@@ -645,6 +678,69 @@ func execEncoders(n *Node, sc *Scenario) *Violation {
 	rec, err := n.fill(b, sc.Type, *sc.Value)
 	if err != nil {
 		return mismatch("bridge|fill", err.Error(), nil)
+	}
+	// how the value came to be: C02 speaks of every record value, also of those a decoder
+	// produced or a constructor built from data the caller still holds and changes
+	switch sc.Extra["origin"] {
+	case "decoded":
+		rb := n.receiver(sc)
+		if rb == nil {
+			note(sc, "skipped", "build absent")
+			return nil
+		}
+		// what a conformant peer sends: fields this reader calls deprecated included; with
+		// an older reader, fields and members it does not know
+		wire := refcodec.Encode(b.Schema, t, val.Canon(b.Schema, t, *sc.Value))
+		dec := sc.Decoder
+		if rb.Mask&2 != 0 && !isStreamDecoder(dec) {
+			// this build's byte-slice decoders return values that share memory with their
+			// input (the option says so), and the harness uses that buffer again
+			dec = "decode"
+		}
+		do := n.decode(rb, sc.Type, dec, wire, &simnet.Schedule{Name: "all"}, nil, "plain", len(wire))
+		if do.NoSuch || do.Call.Panicked || do.Call.Sentinel != nil || do.Err != nil || do.Rec == nil {
+			note(sc, "skipped", "decoder absent or failed (judged by C01/C04)")
+			return nil
+		}
+		rec, b = do.Rec, rb
+		kind = recordKind(b.Schema, sc.Type)
+	case "constructed":
+		tt, def := b.Types[sc.Type], b.Schema.Lookup(sc.Type)
+		if tt == nil || tt.NewFunc == nil || def == nil || !def.ReadOnly {
+			note(sc, "skipped", "no constructor")
+			return nil
+		}
+		rv := reflect.ValueOf(rec).Elem()
+		fn := reflect.ValueOf(tt.NewFunc)
+		if fn.Kind() != reflect.Func || fn.Type().NumIn() != len(def.Fields) || rv.NumField() < len(def.Fields) {
+			note(sc, "skipped", "constructor arity (judged by C01)")
+			return nil
+		}
+		args := make([]reflect.Value, len(def.Fields))
+		for i := range args {
+			args[i] = bridge.Field(rv, i)
+		}
+		var outs []reflect.Value
+		if cr := safeCall(0, 0, func() { outs = fn.Call(args) }); cr.Panicked || len(outs) != 1 {
+			note(sc, "skipped", "constructor failed (judged by C01)")
+			return nil
+		}
+		built := reflect.New(outs[0].Type())
+		built.Elem().Set(outs[0])
+		br, ok := built.Interface().(reg.Record)
+		if !ok {
+			note(sc, "skipped", "constructed value is no record")
+			return nil
+		}
+		// the caller changes what it handed in and still holds (readonly is shallow)
+		note(sc, "grown", "0")
+		for _, a := range args {
+			if bridge.GrowShared(a) {
+				note(sc, "grown", "1")
+				break
+			}
+		}
+		rec = br
 	}
 	m := n.encode(rec, "marshal", sc.Order, nil, nil, "")
 	if v := callViolation(&m.Call, sc, b.Schema, "marshal"); v != nil {
